@@ -506,7 +506,10 @@ def grammar_texts(draw):
         return {"t": "text", "kind": kind, "text": t, "spelling": sp}
     else:
         z = draw(st.booleans())
-        a = draw(dt_text(False)) + ("Z" if z else "")
+        a = draw(dt_text(False))
+        if int(a[:4]) > 9900:       # start + duration must stay representable (year <= 9999), like second 60 and year 0000
+            a = "9900" + a[4:]
+        a = a + ("Z" if z else "")
         if draw(st.booleans()):
             b = draw(dur_text()).lstrip("-")
         else:
